@@ -15,8 +15,9 @@
 //     Euclid     length 2, x0,y0 from {0,3}, x1,y1 from {0,4}: squared distance in {0,9,16,25}, distance in {0,3,4,5}
 //                (exact square roots: the correctly rounded sqrt of a perfect square is its root)
 //     Manhattan  same inputs: distance in {0,3,4,7}
-//     Minkowski  NO value harness: CBMC's powf is an approximation even on constants (kani/README.md), an exact
-//                comparison would report false violations.
+//     Minkowski  p = 1 only, same inputs: distance in {0,3,4,7} (CBMC evaluates powf(x, 1.0) exactly).  For p >= 2 there
+//                is NO value harness: CBMC's powf is an approximation even on constants (kani/README.md; measured here:
+//                p = 2 on these inputs is off by more than 1e-6), an exact comparison would report false violations.
 use super::*;
 use crate::linalg::naive::dense_matrix::DenseMatrix;
 use crate::linalg::BaseMatrix;
@@ -172,7 +173,7 @@ macro_rules! l2_inputs {
 }
 
 #[kani::proof]
-#[kani::unwind(4)]
+#[kani::unwind(6)]
 fn c17_sqeuclid_value_n2() {
     l2_inputs!(x, y, d0, d1);
     let res: f64 = euclidian::Euclidian::squared_distance(&x, &y);
@@ -193,7 +194,7 @@ fn c17_sqeuclid_value_n2() {
 }
 
 #[kani::proof]
-#[kani::unwind(4)]
+#[kani::unwind(6)]
 fn c17_euclid_value_n2() {
     l2_inputs!(x, y, d0, d1);
     let res: f64 = euclidian::Euclidian {}.distance(&x, &y);
@@ -215,7 +216,7 @@ fn c17_euclid_value_n2() {
 }
 
 #[kani::proof]
-#[kani::unwind(4)]
+#[kani::unwind(6)]
 fn c17_manhattan_value_n2() {
     l2_inputs!(x, y, d0, d1);
     let res: f64 = manhattan::Manhattan {}.distance(&x, &y);
@@ -223,6 +224,19 @@ fn c17_manhattan_value_n2() {
     assert!(
         res == L1[d0 + d1],
         "Manhattan::distance: the result is the sum of the absolute coordinate differences"
+    );
+    kani::cover!(res == 7.0);
+}
+
+#[kani::proof]
+#[kani::unwind(6)]
+fn c17_minkowski_value_p1_n2() {
+    l2_inputs!(x, y, d0, d1);
+    let res: f64 = minkowski::Minkowski { p: 1 }.distance(&x, &y);
+    const L1: [f64; 8] = [0.0, 1.0, 2.0, 3.0, 4.0, 5.0, 6.0, 7.0];
+    assert!(
+        res == L1[d0 + d1],
+        "Minkowski::distance: for p = 1 the result is the sum of the absolute coordinate differences"
     );
     kani::cover!(res == 7.0);
 }
